@@ -156,7 +156,29 @@ def run(E: Engine, rep: Report, tier: str) -> dict:
         a0 = arg(l, 0, "total_duration_ns")
         ok_d = a0 is not None and is_(unobj(a0), "Q_s.total_duration_ns") is not None and sym.contains(a0, ("attr", ("name", "self"), "_sim_obj"))
         rep.check(ok_d, "TABLE", "QutipBackendV2.__init__|evaluation-times-scaled-by-emulator-duration", "relative times * self._sim_obj.total_duration_ns", f"QutipBackendV2 converts the relative evaluation times with `{sh(a0, 80) if a0 is not None else '?'}` instead of the emulator's total duration (self._sim_obj.total_duration_ns, which includes the modulation fall time): intermediate times are mislabelled and never stored when the output is modulated", E.where(v2i, l.node))
-    rep.floor("TABLE", 21)
+    # the evaluation times the observables ask for themselves are merged into the solver's times whatever the default
+    # is ("Full", the final time, an explicit list): the merge is conditioned on their presence only
+    glt = E.method("pulser_simulation.qutip_config.QutipConfig", "_get_legacy_evaluation_times")
+    Sg11 = S(E, glt)
+    collects = [l for l in Sg11.log if l.kind == "call" and l.target is not None and l.target[0] == "attr" and l.target[2] in ("update", "add", "extend", "append") and l.value[2] and mentions(l.value[2][0], "evaluation_times")]
+    # (the collecting container: a local created empty and filled in the loop over the observables)
+    extras = {t for l in Sg11.log for v in (l.value, l.cond) if v is not None for t in sym.subterms(v) if t[0] == "obj" and unobj(t) in (("call", ("name", "set"), (), ()), ("call", ("name", "list"), (), ()), ("list",), ("set",))}
+    if not collects:
+        # ... or built by one comprehension over the observables
+        extras = {t for l in Sg11.log for v in (l.value, l.cond) if v is not None for t in sym.subterms(v) if t[0] == "comp" and mentions(t, "evaluation_times") and mentions(t, "observables")}
+        extras = {t for t in extras if not any(t != u and sym.contains(u, t) for u in extras)}
+        collects = list(extras)
+    if not extras or not collects:
+        raise AnalysisError("anchor: QutipConfig._get_legacy_evaluation_times no longer collects the observables' evaluation_times")
+    merges = [l for l in Sg11.log if l.kind == "call" and any(any(sym.contains(a_, e_) for e_ in extras) for a_ in list(l.value[2]) + [v for _k, v in l.value[3]]) and not any(l.target is not None and l.target[0] == "attr" and l.target[1] == e_ for e_ in extras)
+              and not (l.value[1] in (("name", "list"), ("name", "sorted"), ("name", "tuple"), ("name", "len"), ("name", "bool")))]
+    if not merges:
+        rep.excepted("TABLE", "QutipConfig._get_legacy_evaluation_times|observable-times-merged-for-every-default", "no call combining the observables' times with the default times was recognised: not decided", E.where(glt))
+    for i_, l in enumerate(merges):
+        dep = [x for x in sym.conj_of(l.cond) if mentions(x, "default_evaluation_times")]
+        rep.check(not dep, "TABLE", f"QutipConfig._get_legacy_evaluation_times|observable-times-merged-for-every-default|{i_}", "merged whenever some observable has its own times",
+                  f"the observables' own evaluation times are merged (`{sh(l.value, 80)}`) only under `{[sh(x, 80) for x in dep]}`: with another default (the final time, an explicit list) they never reach the solver, so those observables are silently evaluated at the default times only", E.where(glt, l.node))
+    rep.floor("TABLE", 22)
 
     # ---------------------------------------------------------------- SIB
     s1 = E.fn("pulser_simulation.simresults.CoherentResults.sample_state")
